@@ -170,7 +170,8 @@ def expand(acc, item, tier, seed):
             for k, m in bad:
                 viol(k, m)
             if after != base:
-                acc.succ.add((cfgkey, after))
+                if TS.representable(after):
+                    acc.succ.add((cfgkey, after))
                 for k, m in rig.seat(state):
                     viol(k, m)
         for req in alphabet:
@@ -198,7 +199,8 @@ def expand(acc, item, tier, seed):
                 viol(k, m)
             if rig.state() != base:
                 if cfgkey[1] == "mixed" and acked:
-                    acc.succ.add((cfgkey, rig.state()))       # depth-bounded: every accepted write is a new starting point
+                    if TS.representable(rig.state()):
+                        acc.succ.add((cfgkey, rig.state()))       # depth-bounded: every accepted write is a new starting point
                 for k, m in rig.seat(state):
                     viol(k, m)
     if alphabet:
